@@ -75,6 +75,13 @@ func Complete(code CodeBuffer, ev *eval.Evaler, cfg Config) (*Result, error) {
 		if err == errNoCompletion {
 			continue
 		}
+		if ctx.interval.From == ctx.interval.To {
+			// A new word is being started. The completers derive the position
+			// from the end of the node to the left of the cursor, which may
+			// be whitespace or a comment that extends beyond the cursor;
+			// the new word belongs at the cursor.
+			ctx.interval = range0(code.Dot)
+		}
 		rawItems = cfg.Filterer(ctx.name, ctx.seed, rawItems)
 		sort.Slice(rawItems, func(i, j int) bool {
 			return rawItems[i].String() < rawItems[j].String()
